@@ -362,7 +362,11 @@ def template_stream(ctx):
                    '@|string|replace("a", "b", **{"count": 0})', '@|string|replace(*["a", "b", 1], count=2)', '@ is divisibleby(*[2])', '@ is divisibleby(**{"num": 2})', '@ is divisibleby(2, **{"num": 3})',
                    '@ is sameas(*[@])', '@|string|truncate(3, **{"length": 5})', '@|string|truncate(**{"length": 3, "leeway": 0})', '[@]|join(**{"d": "-"})', '[@]|join("+", **{"d": "-"})',
                    '@|round(**{"precision": 1})', '@|round(1, **{"precision": 2})', '@|int(**{"default": 7})', '@|int(5, **{"default": 7})', '{"k": @}|dictsort(**{"reverse": true, "by": "value"})',
-                   '{"k": @}|dictsort(true, **{"case_sensitive": false})', '[@]|batch(2, **{"fill_with": 0})|list', '[@]|batch(2, 1, **{"fill_with": 0})|list', '[@]|sum(**{"start": 1})', '[@]|sum(none, 2, **{"start": 1})']
+                   '{"k": @}|dictsort(true, **{"case_sensitive": false})', '[@]|batch(2, **{"fill_with": 0})|list', '[@]|batch(2, 1, **{"fill_with": 0})|list', '[@]|sum(**{"start": 1})', '[@]|sum(none, 2, **{"start": 1})',
+                   # the kind of the * / ** operand: ** needs a mapping (not a list of pairs, a string, a number), * any iterable (string, dict, tuple, not a number)
+                   '@|string|center(**[("width", 5)])', '@|string|center(**(("width", 5),))', '@|string|center(**"ab")', '@|string|center(**5)', '@|string|center(**none)', '@|string|center(**[])',
+                   '@|string|center(*"5")', '@|string|center(*(5,))', '@|string|center(*{5: 1})', '@|string|center(*5)', '@|string|center(*none)', '@|default(*"a")', '@|default(**{1: 2})',
+                   '@ is divisibleby(*(2,))', '@ is divisibleby(**[("num", 2)])', '@ is divisibleby(*"2")', '[@]|join(*",")', '[@]|join(**[("d", ",")])']
     for shp in star_shapes:
         for c, kk in (("none", None), ('"a"', "a"), ("3", 3), ("2.5", 2.5), ("4", 4)):
             t = "{{ " + shp.replace("@", c) + " }}"
@@ -383,6 +387,30 @@ def template_stream(ctx):
                     kw = {"autoescape": env_ae}
                     out.append(("C08:mode-dependent-constant-in-container:" + cont, [("optimized", kw, lit, {}), ("unoptimized", dict(kw, optimized=False), lit, {}),
                                                                                     ("literals-lifted", kw, lifted, {"ka": "<a>", "kb": "<b>"})]))
+    # the FLAG of an autoescape block lifted into a variable (static vs run-time decided escaping), around statement bodies
+    # that capture output: filter blocks, filtered and plain set blocks, macros and call blocks, with Markup-sensitive filters
+    bodies = ["{{ @ }}", "{{ @|e }}", "{{ '<a>%s'|format(@) }}", "{{ @ ~ '<c>' }}", "{% filter e %}<b>{{ @ }}{% endfilter %}", "{% filter format('<q>') %}%s<b>{{ @ }}{% endfilter %}",
+              "{% filter upper %}<b>{{ @ }}{% endfilter %}", "{% filter e|e %}<b>{{ @ }}{% endfilter %}", "{% filter replace('b', '<r>') %}<b>{{ @ }}{% endfilter %}",
+              "{% set v | e %}<i>{{ @ }}{% endset %}{{ v }}", "{% set v | upper %}<i>{{ @ }}{% endset %}{{ v }}|{{ v|e }}", "{% set v %}<i>{{ @ }}{% endset %}{{ v }}|{{ v ~ '<' }}",
+              "{% set v | format('<q>') %}%s<i>{{ @ }}{% endset %}{{ v }}", "{% macro m() %}<m>{{ @ }}{% endmacro %}{{ m() }}|{{ m()|e }}",
+              "{% macro m() %}{{ caller() }}{% endmacro %}{% call m() %}<c>{{ @ }}{% endcall %}", "{% filter e %}{% filter upper %}<b>{{ @ }}{% endfilter %}{% endfilter %}",
+              "{% for i in [1] %}{% filter e %}<b>{{ @ }}{% endfilter %}{% endfor %}", "{% if fl is defined or true %}{% set v | e %}<i>{{ @ }}{% endset %}{{ v }}{% endif %}"]
+    exprs = ['"<b>"', '"<b>"|safe', "x", "x|safe", '["<l>", x]|join("&")']
+    for env_ae in (False, True):
+        for outer in (None, "true", "false"):
+            for flag in ("true", "false"):
+                for body in bodies:
+                    for ex in exprs:
+                        if ctx.tier == "quick" and (hash((env_ae, outer, flag, body, ex)) if False else (bodies.index(body) + exprs.index(ex) + (outer is None) + env_ae * 2 + (flag == "true"))) % 4:
+                            continue                   # quick tier: a quarter of the product, every body x every expression still met
+                        b = body.replace("@", ex)
+                        pre, post = ("", "") if outer is None else ("{% autoescape " + outer + " %}", "{% endautoescape %}")
+                        tc = pre + "{% autoescape " + flag + " %}" + b + "{% endautoescape %}" + post
+                        tv = pre + "{% autoescape fl %}" + b + "{% endautoescape %}" + post
+                        kw = {"autoescape": env_ae}
+                        d = {"x": "<x>", "fl": flag == "true"}
+                        out.append(("C08:autoescape-flag-lifted:" + body[:24], [("constant-flag", kw, tc, d), ("flag-in-variable", kw, tv, d),
+                                                                               ("constant-flag-unoptimized", dict(kw, optimized=False), tc, d), ("flag-in-variable-unoptimized", dict(kw, optimized=False), tv, d)]))
     # ---- probes of known findings (re-observed on every run)
     for t in ("{% set y = false and (1|nofilter) %}{{ y }}", "{{ true or (1 is notest) }}", "{{ 0 and (x|nofilter) }}", "{{ (1 or 2|nofilter(3))|string }}"):
         out.append(("C08:unknown-filter-in-folded-short-circuit", [("optimized", {}, t, {"x": 1}), ("unoptimized", {"optimized": False}, t, {"x": 1})]))
@@ -393,6 +421,17 @@ def template_stream(ctx):
             t = mac.replace("F1", f1).replace("F2", f2)
             out.append(("C08:macro-called-outside-its-autoescape-block", [("optimized", {"autoescape": ae}, t.replace("X", '{"a": "<"}'), {}),
                                                                         ("constant-lifted", {"autoescape": ae}, t.replace("X", "kk"), {"kk": {"a": "<"}})]))
+    # more shapes of the macro / eval-context known finding: a block of a parent template selected as autoescaping by its NAME, rendered
+    # through a child whose name selects no autoescaping; a macro defined at top level and called inside a block with the other flag
+    sel = jinja2.select_autoescape(["html"], default_for_string=False)
+    inh = {"base.html": "[{% block b %}{{ X|xmlattr }}{% endblock %}]"}
+    out.append(("C08:macro-called-outside-its-autoescape-block", [
+        ("optimized", {"autoescape": sel, "loader": jinja2.DictLoader({k: v.replace("X", '{"a": "<"}') for k, v in inh.items()})}, "{% extends 'base.html' %}", {}),
+        ("constant-lifted", {"autoescape": sel, "loader": jinja2.DictLoader({k: v.replace("X", "kk") for k, v in inh.items()})}, "{% extends 'base.html' %}", {"kk": {"a": "<"}})]))
+    for ae, fl in ((True, "false"), (False, "true")):
+        t = "{% macro m() %}{{ X|xmlattr }}{% endmacro %}{% autoescape " + fl + " %}{{ m() }}{% endautoescape %}"
+        out.append(("C08:macro-called-outside-its-autoescape-block", [("optimized", {"autoescape": ae}, t.replace("X", '{"a": "<"}'), {}),
+                                                                    ("constant-lifted", {"autoescape": ae}, t.replace("X", "kk"), {"kk": {"a": "<"}})]))
     fins = {"none-to-empty": (lambda x: "" if x is None else x), "wrap": (lambda x: "<%s>" % (x,)), "identity": (lambda x: x)}
     for fname, fin in fins.items():
         for ae in (False, True):
